@@ -219,6 +219,13 @@ def compare(st, lib, ref, rd):
             bad.append(f'packet {i}: valid packet rejected (synthesis={src} blockin={brc})')
             break
         rp, rt = r
+        # granule-position trimming (spec A.2): samples discarded at the start of the second audio packet's output / at the end of the eos packet's
+        ts = getattr(st, 'trim_start', 0)
+        if ts and i == 1:
+            rp, rt = rp[:, ts:], rt[:, ts:]
+        te = getattr(st, 'trim_end_keep', None)
+        if te is not None and i == len(st.packets) - 1:
+            rp, rt = rp[:, :te], rt[:, :te]
         if rp.shape[1] != n:
             bad.append(f'packet {i}: sample count {n}, specification {rp.shape[1]}')
             break
